@@ -498,16 +498,25 @@ def _decode_all_iter(cx, fn, path):
     if mp.get("k") != "call" or not (callee_path(mp) or "").endswith("Iterator::map"):
         return False, "collect is not applied directly to a map (a filter / skip / take stage changes which instructions are decoded)"
     vals = ev.ev(mp["args"][0], st0, path)
-    if not (len(vals) == 1 and isinstance(vals[0][0], tuple) and vals[0][0][0] == "struct" and vals[0][0][1].endswith("ops::Range")):
-        return False, "map is not applied directly to a range a..b"
-    a, b = symex.sfield(vals[0][0], "start"), symex.sfield(vals[0][0], "end")
-    if not (a == T.K(64, 0) and b == n_insns):
-        return False, "range %s..%s" % (_sh(a), _sh(b))
+    I = ("v", "I", 64)
+    form = "(0..len/8).map(get_insn).collect()"
+    if len(vals) == 1 and isinstance(vals[0][0], tuple) and vals[0][0][:1] == ("chunks",):
+        # the pieces of the program, one instruction slot each, in order: piece I is the slot of instruction I
+        if not (vals[0][0][1] == PROG and vals[0][0][2] == 8):
+            return False, "pieces of %s elements of %s" % (vals[0][0][2], _sh(vals[0][0][1]))
+        item = ("subslice", PROG, T.op("mul", 64, I, T.K(64, 8)), 8)
+        form = "prog.chunks_exact(8).map(get_insn(piece, 0)).collect()"
+    else:
+        if not (len(vals) == 1 and isinstance(vals[0][0], tuple) and vals[0][0][0] == "struct" and vals[0][0][1].endswith("ops::Range")):
+            return False, "map is not applied directly to a range a..b or to the instruction-sized pieces of the program"
+        a, b = symex.sfield(vals[0][0], "start"), symex.sfield(vals[0][0], "end")
+        if not (a == T.K(64, 0) and b == n_insns):
+            return False, "range %s..%s" % (_sh(a), _sh(b))
+        item = I
     clo = [v for v, _s in ev.ev(mp["args"][1], vals[0][1], path)]
     if len(clo) != 1 or not (isinstance(clo[0], tuple) and clo[0] and clo[0][0] == "clo"):
         return False, "the mapped function is not a closure of this function"
-    I = ("v", "I", 64)
-    outs = [(v, s2) for v, s2 in (ev.inline_fn(clo[0][1], [I], mp, vals[0][1]) or []) if s2.feasible]
+    outs = [(v, s2) for v, s2 in (ev.inline_fn(clo[0][1], [item], mp, vals[0][1]) or []) if s2.feasible]
     if len(outs) != 1:
         return False, "%d paths through the mapped closure" % len(outs)
     x = outs[0][0]
@@ -516,7 +525,7 @@ def _decode_all_iter(cx, fn, path):
               for f in ("opc", "dst", "src", "off", "imm"))
     if not okp:
         return False, "the mapped value is not get_insn(prog, i) unchanged"
-    return True, "(0..len/8).map(get_insn).collect()"
+    return True, form
 
 
 def _sh(t):
